@@ -157,6 +157,35 @@ fn guarded<T>(f: impl FnOnce() -> T) -> Result<T, &'static str> {
 
 type ConvLog = Rc<RefCell<Vec<(u8, String, Vec<Vec<Interval>>)>>>;
 
+thread_local! {
+    /// the user dictionary behind each session's conversion log (key = address of the log): a conversion answer is
+    /// recorded together with a fingerprint of the user dictionary AT THE TIME OF THE CALL, because one step can convert
+    /// the same composition twice with a learning in between (Enter on a highlighted range, then the overflow commit)
+    static LOG_USERS: RefCell<std::collections::HashMap<usize, *const TrieBuf>> = RefCell::new(Default::default());
+    /// fingerprints of the calls in each log, by index
+    static LOG_FPS: RefCell<std::collections::HashMap<usize, Vec<u128>>> = RefCell::new(Default::default());
+}
+
+/// to be called wherever a `Session` is built
+fn register_user(log: &ConvLog, user: *const TrieBuf) {
+    LOG_USERS.with(|m| m.borrow_mut().insert(Rc::as_ptr(log) as usize, user));
+    LOG_FPS.with(|m| m.borrow_mut().remove(&(Rc::as_ptr(log) as usize)));
+}
+
+/// entries, tombstones, sum of frequencies and times of the user dictionary (the Lean driver computes the same
+/// number from the dictionary state the model hands to `convert`)
+fn user_fingerprint(log: &ConvLog) -> u128 {
+    let ptr = LOG_USERS.with(|m| m.borrow().get(&(Rc::as_ptr(log) as usize)).copied());
+    match ptr {
+        // SAFETY: the Box<TrieBuf> handed to Layered::new lives as long as the editor that owns this engine
+        Some(p) => {
+            let (btree, grave, _, _, _) = unsafe { (*p).verif_snapshot() };
+            btree.len() as u128 * 1_000_003 + grave.len() as u128 * 10_007 + btree.iter().map(|e| e.2 as u128 + e.3 as u128).sum::<u128>()
+        }
+        None => 0,
+    }
+}
+
 /// Delegates to the real engine and records (composition, all alternatives) of every call.
 struct LoggingEngine {
     kind: u8,
@@ -180,6 +209,14 @@ impl ConversionEngine for LoggingEngine {
         let all: Vec<Vec<Interval>> = self.inner.convert(dict, comp).collect();
         let mut c = String::new();
         chewing::editor::verif::composition(&mut c, comp);
+        let fp = user_fingerprint(&self.log);
+        let n = self.log.borrow().len();
+        LOG_FPS.with(|m| {
+            let mut m = m.borrow_mut();
+            let v = m.entry(Rc::as_ptr(&self.log) as usize).or_default();
+            v.truncate(n); // the log is only ever cleared as a whole or appended to here
+            v.push(fp);
+        });
         self.log.borrow_mut().push((self.kind, c, all.clone()));
         Box::new(all.into_iter())
     }
@@ -479,8 +516,9 @@ impl Session {
     fn conv_answers(&self) -> String {
         let log = self.conv_log.borrow();
         let mut out = format!("C {}", log.len());
-        for (kind, comp, paths) in log.iter() {
-            let _ = write!(out, " {}{} {}", kind, comp, paths.len());
+        let fps: Vec<u128> = LOG_FPS.with(|m| m.borrow().get(&(Rc::as_ptr(&self.conv_log) as usize)).cloned().unwrap_or_default());
+        for (i, (kind, comp, paths)) in log.iter().enumerate() {
+            let _ = write!(out, " {} {}{} {}", kind, fps.get(i).copied().unwrap_or(0), comp, paths.len());
             for p in paths {
                 let _ = write!(out, " {}", p.len());
                 for iv in p {
@@ -797,6 +835,36 @@ fn gen_op_c01(rng: &mut Rng, s: &Session, pool: &[(Syllable, Vec<KeyCode>)], pen
         return Op::Key(code, m);
     }
     let selecting = s.ed.is_selecting();
+    // C06 / C08 (round 3, after the seeded change C06-highlight-enter-bell-after-cursor-move was missed: 10 of 24 000
+    // generated steps started in Highlighting): about every twelfth choice made in plain Entering over a non-empty
+    // buffer highlights a range with Shift+arrows and mostly ends it with Enter (add the range as a user phrase: fails
+    // on a range holding a non-syllable and on a phrase that is already known, succeeds otherwise), sometimes with
+    // another key, sometimes leaves the highlight standing for the ordinary mix
+    if !focus && !selecting && s.ed.is_entering() && !s.ed.is_empty() && s.lay.borrow().is_empty() && rng.chance(1, 12) {
+        let shift = Modifiers::shift();
+        let cur = s.ed.cursor();
+        let dir = if cur == 0 { Right } else if rng.chance(3, 4) { Left } else { Right };
+        let back = if dir == Left { Right } else { Left };
+        let mut seq: Vec<Op> = (0..(1 + rng.below(4))).map(|_| Op::Key(dir, shift)).collect();
+        if rng.chance(1, 4) {
+            seq.push(Op::Key(back, shift));
+        }
+        match rng.below(8) {
+            0..=4 => seq.push(Op::Key(Enter, plain)),
+            5 => seq.push(Op::Key(*rng.pick(&[Esc, Up, Down, Tab, Backspace, Del, Home, End, Left, Right, Space, N1, A]), plain)),
+            6 => seq.push(Op::Key(*rng.pick(&[N2, N3, N4]), Modifiers::control())),
+            _ => {}
+        }
+        if rng.chance(1, 3) {
+            // the same range once more: the phrase is known by now, the add fails
+            let again: Vec<Op> = seq.clone();
+            seq.extend(again);
+        }
+        seq.reverse();
+        let first = seq.pop().unwrap();
+        pending.extend(seq);
+        return first;
+    }
     // C02: a commit string is still in the buffer and symbols remain (an overflow just happened): make the
     // next overflow come from `select()`, which does not reset the commit buffer first
     if !focus
@@ -1353,6 +1421,7 @@ fn main() {
             o.auto_commit_threshold = rng_c02.below(8) as usize;
         }
         ed.set_editor_options(o);
+        register_user(&conv_log, user_ptr);
         let mut s = Session { ed, lay, conv_log, user: user_ptr, sys, layout_kind, probes, engine_kind };
         let uniform = rng.chance(1, 8);
         let mut pending: Vec<Op> = vec![];
